@@ -23,6 +23,9 @@ def run(ctx):
     res.assumptions = ["observation at the client sockets with the barrier protocol (DESIGN 2.3)",
                        "snapshot hook reads the state under the server's own lock",
                        "reference model of DESIGN 2.4 encodes the statement; unspecified choices are resynchronised, not judged"]
+    # "+l: fewer members than the limit" also when many ask at the same moment (the limit is never exceeded), and
+    # simultaneous first joins of one name
+    common.run_storm_kinds(ctx, res, "c07:", ["limit", "limit", "firstjoin"], 12, 80, jobs=4, jitter=2000)
     return res
 
 
